@@ -41,9 +41,17 @@ def main() -> int:
     if argv[0] == "runcase":
         import json
         mod = runner.load_prop(argv[1])
+        if hasattr(mod, "setup"):
+            mod.setup("quick", build=False)
         with open(argv[2], encoding="utf-8") as f:
-            res = mod.run_case(json.load(f))
+            case = json.load(f)
+        res = runner.run_one(mod, case, 3600.0)
         print("RUNCASE", res.get("ok"), res.get("vclass"))
+        keep = {k: res.get(k) for k in ("ok", "vclass", "detail", "key",
+                                       "digest", "nontrivial", "stats",
+                                       "faults", "probes", "harness_error")
+                if res.get(k) is not None}
+        print("RUNCASE_JSON " + json.dumps(keep, default=str))
         return 0
     if argv[0] == "digests":
         return runner.cmd_digests(argv[1], argv[2], argv[3])
